@@ -219,10 +219,26 @@ ParseISO(s, p) ==
 COk(v) == [ok |-> TRUE, v |-> v]
 CErr(e) == [ok |-> FALSE, err |-> e]
 
-(* zone-less wall clock -> zone-aware, in the context zone *)
+(* zone-less wall clock -> zone-aware, in the context zone.  A local time    *)
+(* inside a spring-forward gap or a fall-back overlap has no unique         *)
+(* offset; the casts build the value with Go's time.Date, whose rule is     *)
+(* deterministic: guess the offset in force at the wall clock read as UTC,  *)
+(* keep it if the resulting instant lies in the same zone period, else take *)
+(* the offset in force at that instant (overlap -> first occurrence, gap -> *)
+(* the wall clock moves back by the width of the gap).                      *)
+LocalExistsOnce(zone, day, sod) == OffsetAtLocal(zone, day, sod) # OPQ
 ToAware(ty, y, mo, d, h, mi, sec, ns, zone) ==
-  LET off == OffsetAtLocal(zone, DayNumber(y, mo, d), h * 3600 + mi * 60 + sec)
-  IN IF off = OPQ THEN CErr("opaque") ELSE COk(Mk(ty, y, mo, d, h, mi, sec, ns, off))
+  LET day == DayNumber(y, mo, d)  sod == h * 3600 + mi * 60 + sec
+  IN IF ~IsFixed(zone) /\ (zone # "America/New_York" \/ y < 2008 \/ y > 9998) THEN CErr("opaque")
+     ELSE LET g   == OffsetAtInstant(zone, day, sod)
+              u   == Shift(day, sod, -g)
+              g2  == OffsetAtInstant(zone, u.day, u.sod)
+              off == IF g2 = g THEN g ELSE g2
+              i   == Shift(day, sod, -off)
+              o2  == OffsetAtInstant(zone, i.day, i.sod)
+              p   == Shift(i.day, i.sod, o2)
+          IN IF IsFixed(zone) THEN COk(Mk(ty, y, mo, d, h, mi, sec, ns, off))
+             ELSE COk(OfDaySod(ty, p.day, p.sod, ns, o2))
 (* zone-aware -> fields in the context zone: [ok, day, sod, off] *)
 InZone(v, zone) ==
   LET i == Instant(v)
